@@ -1,7 +1,7 @@
 #!/bin/sh
 # try_seed.sh <seed_dir> <PROP> [tier]: applies the seeded change to /repo, runs the check, reverts.
 SEED="$1"; PROP="$2"; TIER="${3:-quick}"
-cd /verif
+cd "$(dirname "$0")/.."
 git -C /repo apply "$SEED/patch.diff" || { echo "apply failed"; exit 2; }
 ./check run "$PROP" --tier "$TIER" 2>&1 | grep -E "VIOLATION|KNOWN|UNDECIDED|tier=|Traceback|Error" | cut -c1-260
 RC=$?
